@@ -122,19 +122,30 @@ def run(ctx):
     # ---- tryToKillPids counts successful kills only
     tkp = ctx.fn1("Oomd::BaseKillPlugin::tryToKillPids")
     fp = Flow(P, tkp, cg=ctx.cg)
-    ws = local_writes(tkp, "nrKilled")
+    # what the function returns: a local counter that starts at 0 and is bumped by one
+    # on the kill(2)==0 edge and nowhere else
+    rv = {ret_text(tkp, r) for r in returns(tkp)}
+    cvar = rv.pop() if len(rv) == 1 else None
+    init, v = local_init(tkp, cvar) if cvar else (-1, None)
+    ws = local_writes(tkp, cvar) if cvar else []
     ctx.counters["nrKilled_writes"] = len(ws)
-    ctx.floor("nrKilled_writes", 1, "nrKilled increments in tryToKillPids")
+    ctx.check(v is not None and tkp.text(init) == "0" and not v.get("const"), "count-starts-at-zero", "vardecl", tkp.loc(),
+              "the returned count is a local counter starting at 0",
+              "tryToKillPids returns '%s', which is not a counter starting at 0 (so it cannot be the number of successful kill(2) calls)" % (
+                  cvar if cvar else sorted(rv)))
+    if v is not None and not ws:
+        ctx.violation("count-only-successful-kills", "guarded_by", tkp.loc(),
+                      "the returned count is never incremented on the kill(2)==0 edge")
     for w in ws:
         g = fp.guards(w)
         okk = any(p is True and re.match(r"^\((0 == kill\(.*\)|kill\(.*\) == 0)\)$", k) for k, p in g)
         n = tkp.nodes[w]
         one = (n["k"] == "un" and n["op"] == "++") or tkp.text(write_rhs(tkp, w)) == "1"
         ctx.check(okk and one, "count-only-successful-kills", "guarded_by", tkp.loc(w),
-                  "nrKilled is incremented by one on the kill(2)==0 edge only",
-                  "nrKilled changes outside the kill(2)==0 edge", witness_path(tkp, fp, w))
+                  "the count is incremented by one on the kill(2)==0 edge only",
+                  "the count changes outside the kill(2)==0 edge", witness_path(tkp, fp, w))
     for r in returns(tkp):
-        ctx.check(ret_text(tkp, r) == "nrKilled", "tryToKillPids-returns-count", "return_table", tkp.loc(r),
+        ctx.check(cvar is not None, "tryToKillPids-returns-count", "return_table", tkp.loc(r),
                   "returns the count", "returns " + ret_text(tkp, r))
     # per-iteration: each pid is signalled at most once
     ls = loop_over(tkp, "pids")
